@@ -104,6 +104,25 @@ InitWith(keys, clients) ==
 
 Init == InitWith(Keys, Clients)
 
+(* back to the initial state (trace validation of concatenated runs) *)
+ResetWith(keys, clients) ==
+    /\ log' = [k \in keys |-> <<>>]
+    /\ lpres' = [k \in keys |-> FALSE]
+    /\ dirty' = [k \in keys |-> 0]
+    /\ lver' = [k \in keys |-> 0]
+    /\ entry' = [k \in keys |-> NoEntry]
+    /\ db' = [k \in keys |-> {}]
+    /\ batch' = <<>>
+    /\ flight' = [k \in keys |-> NoClient]
+    /\ pc' = [c \in clients |-> Idle]
+    /\ must' = [k \in keys |-> {}]
+    /\ may' = [k \in keys |-> {}]
+    /\ gmust' = [c \in clients |-> {}]
+    /\ gmay' = [c \in clients |-> {}]
+    /\ nops' = [c \in clients |-> 0]
+    /\ hist' = <<>>
+    /\ viol' = 0
+
 Log(step) == hist' = IF Gen THEN Append(hist, step) ELSE hist
 
 (* ------------------------------------------------------- the staging log *)
